@@ -62,6 +62,25 @@ register("C05",
     "Trusted: engine/microai; the 0-1 BFS reference for minimum bends in the free plane (engine/props/c05.py).",
     "abstract interpretation of the clang AST over finite direction sets and sign atoms (decision tables) compared with a BFS reference",
     "DESIGN.md §5 C05")
+register("C03",
+    "Decides the structural clauses behind obstacle avoidance for every path/call site: only reviewed functions make an edge visible; in "
+    "checkVis and vertexSweep visibility is granted only under cone(i) && cone(j) && unblocked (truth-table entailment over the enclosing "
+    "conditions) with the cone tests applied to the right vertices; firstBlocker and newBlockingShape test every obstacle side "
+    "(prev(k),k) / (i,i+1 mod n) with a per-shape / per-edge end-point state and report/remove exactly on a hit; the straight-line fallback "
+    "is taken only when the search found no path; route ends are written from the source/destination vertices. Does not decide the "
+    "geometric adequacy of the sweep / orthogonal scan, nor nudging.",
+    "Trusted: clang AST/CFG; tables/c03_setdist_callers.json (reviewed producers of dummy / orthogonal edges).",
+    "who-calls + guarded-by rules (propositional entailment over path conditions), CFG must-pass-through, semantic template match",
+    "DESIGN.md §5 C03")
+register("C04",
+    "Decides the shape of the A* search that makes polyline routes shortest paths *given* the visibility graph: the heuristic is exactly "
+    "euclideanDist (symbolic), f = g + h at every store, g accumulates parent g + cost(edge length), heap order is ANodeCmp whose decision "
+    "table is a min-heap on f with tolerance and time-stamp tie-break, PENDING entries are only replaced by cheaper ones, cost() is the "
+    "edge length when all penalties are zero and length + {0,1,2}*segmentPenalty otherwise, stored edge lengths are Euclidean. Does not "
+    "decide that the visibility graph contains a shortest path or that pruning keeps one.",
+    "Trusted: engine/microai; angle classes of angleBetween abstracted to {0, (0,pi), pi}.",
+    "symbolic interpretation (decision tables) of heuristic / comparator / cost + who-writes rules on the A* node fields",
+    "DESIGN.md §5 C04")
 for _p, _r in {
  "C06": "equality of route costs between an incrementally edited router and a fresh one quantifies over run-time visibility-graph contents after arbitrary edit histories; no rule over code shape is a necessary condition of it",
  "C12": "tree-ness and terminal preservation of hyperedges are invariants of dynamically rewritten run-time graphs; not visible in code shape",
